@@ -1,28 +1,71 @@
 (* C09 — Connections persist or close exactly as signalled.  Pinned statements. *)
 From KV Require Import Lib.Bytes Model.Headers Model.Parser Model.Body Model.Server
-  Spec.HeaderStore Spec.HttpGrammar Proofs.ServerHead.
+  Spec.HeaderStore Spec.HttpGrammar Spec.Framing Spec.ConnSpec Proofs.ServerHead Proofs.ServerConn.
 
 Definition rr_fuel (segs : list bytes) : nat := S (length segs) + length (concat segs).
 
+(* (fix F21) a fifth cause of closing: the end of the request's body could not be established.
+   [located failed b] (Model/Server.v): the reader has seen no failed read and the discard of the unread rest of the
+   body, when the reader [b] is dropped, reaches the end of the body.  [reader_after_handler]: what has become of the
+   reader when the handler returns - whether one of the handler's reads failed, and the reader. *)
+Definition read_failed {A} (res : A + ioerr) : bool := match res with inr _ => true | inl _ => false end.
+Definition reader_after_handler (a : app) (r : request) (b : body) : bool * body :=
+  match behaviour_of a r with
+  | BAll | BFirst => let '(res, b') := read_to_end (body_fuel b) b [] in (read_failed res, b')
+  | BReadK k => let '(res, b') := read_k (body_fuel b) k b [] in (read_failed res, b')
+  | _ => (false, b)
+  end.
+Definition end_located (a : app) (r : request) (b : body) : bool :=
+  let '(failed, b') := reader_after_handler a r b in located failed b'.
+
 (* a processed request: the connection is kept iff the handler succeeded, the request carried no
-   close token, no response (now or earlier on this connection) carried one *)
+   close token, no response (now or earlier on this connection) carried one, and the byte that follows
+   the request's body has been located *)
 Theorem C09_decision : forall a N ka segs buf r rest,
   read_request (rr_fuel segs) N [] segs = (RParsed buf r, rest) ->
   (te_present (q_hdrs r) && negb (te_final_chunked (q_hdrs r))) = false ->
   hook_of a r = HProceed ->
   let o := handle_one_request a N ka segs in
-  o_keep o = (o_ok o && negb (connection_close (q_hdrs r)) && ka && negb (existsb rs_close (o_resps o))).
+  o_keep o = (o_ok o && negb (connection_close (q_hdrs r)) && ka && negb (existsb rs_close (o_resps o)) &&
+              end_located a r (from_request (skipn (q_offset r) buf) rest (q_hdrs r))).
 Proof. exact keep_decision. Qed.
 Print Assumptions C09_decision.
 
-(* when the pre-routing hook answers in place of the handler the same rule applies *)
+(* when the pre-routing hook answers in place of the handler the same rule applies (nothing of the body is read) *)
 Theorem C09_decision_hook : forall a N ka segs buf r rest,
   read_request (rr_fuel segs) N [] segs = (RParsed buf r, rest) ->
   (te_present (q_hdrs r) && negb (te_final_chunked (q_hdrs r))) = false ->
   hook_of a r <> HProceed ->
   let o := handle_one_request a N ka segs in
-  o_keep o = (negb (connection_close (q_hdrs r)) && ka && negb (existsb rs_close (o_resps o))).
+  o_keep o = (negb (connection_close (q_hdrs r)) && ka && negb (existsb rs_close (o_resps o)) &&
+              located false (from_request (skipn (q_offset r) buf) rest (q_hdrs r))).
 Proof. exact keep_decision_hook. Qed.
+Print Assumptions C09_decision_hook.
+
+(* the fifth cause never applies to a well-framed request (head and body in segments of its own, whatever follows):
+   the end of its body is located whatever the handler reads ... *)
+Theorem C09_wellframed_located : forall a N reqsegs later r raw buf rest,
+  parse_request (firstn N (concat reqsegs)) = Ok r ->
+  raw = raw_fields (firstn N (concat reqsegs)) ->
+  (exists payload, rfc_framing raw <> FReject /\
+     view_body (rfc_framing raw) (skipn (q_offset r) (concat reqsegs)) = BodyOk payload []) ->
+  read_request (rr_fuel (reqsegs ++ later)) N [] (reqsegs ++ later) = (RParsed buf r, rest) ->
+  let b := from_request (skipn (q_offset r) buf) rest (q_hdrs r) in
+  located false b = true /\ end_located a r b = true.
+Proof. exact wellframed_located. Qed.
+Print Assumptions C09_wellframed_located.
+
+(* ... so that for well-framed requests the decision has exactly the four causes it had before the repair
+   (whether the handler or the pre-routing hook answers: in the latter case [o_ok o = true]) *)
+Theorem C09_decision_wellframed : forall a N ka reqsegs later r raw,
+  parse_request (firstn N (concat reqsegs)) = Ok r ->
+  raw = raw_fields (firstn N (concat reqsegs)) ->
+  (exists payload, rfc_framing raw <> FReject /\
+     view_body (rfc_framing raw) (skipn (q_offset r) (concat reqsegs)) = BodyOk payload []) ->
+  let o := handle_one_request a N ka (reqsegs ++ later) in
+  o_keep o = (o_ok o && negb (connection_close (q_hdrs r)) && ka && negb (existsb rs_close (o_resps o))).
+Proof. exact keep_decision_wellframed. Qed.
+Print Assumptions C09_decision_wellframed.
 
 (* a rejected head (400 / 431) always carries connection: close and ends the connection *)
 Theorem C09_rejected_closes : forall a N ka segs,
